@@ -246,3 +246,68 @@ theorem keys_map_val {β : Type} (f : α → β) (l : AList κ α) :
   simp [keys, List.map_map, Function.comp_def]
 
 end Gin.AList
+
+namespace Gin.AList
+variable {κ α : Type} [DecidableEq κ]
+
+theorem mem_of_mem_set (k : κ) (v : α) (l : AList κ α) (x : κ × α) (h : x ∈ set k v l) :
+    x = (k, v) ∨ x ∈ l := by
+  induction l with
+  | nil => simp [set] at h; exact Or.inl h
+  | cons y rest ih =>
+    obtain ⟨k', v'⟩ := y
+    simp only [set] at h
+    by_cases hk : k' = k
+    · subst hk
+      simp only [if_true, List.mem_cons] at h
+      rcases h with h | h
+      · exact Or.inl h
+      · exact Or.inr (List.mem_cons_of_mem _ h)
+    · simp only [hk, if_false, List.mem_cons] at h
+      rcases h with h | h
+      · exact Or.inr (by simp [h])
+      · rcases ih h with h | h
+        · exact Or.inl h
+        · exact Or.inr (List.mem_cons_of_mem _ h)
+
+theorem mem_of_mem_update (d e : AList κ α) (x : κ × α) (h : x ∈ update d e) : x ∈ d ∨ x ∈ e := by
+  unfold update at h
+  induction e generalizing d with
+  | nil => exact Or.inl h
+  | cons y rest ih =>
+    rw [List.foldl_cons] at h
+    rcases ih _ h with h | h
+    · rcases mem_of_mem_set y.1 y.2 d x h with h | h
+      · right; rw [h]; simp
+      · exact Or.inl h
+    · exact Or.inr (List.mem_cons_of_mem _ h)
+
+theorem erase_sublist (k : κ) (l : AList κ α) : (erase k l).Sublist l := by
+  induction l with
+  | nil => simp [erase]
+  | cons y rest ih =>
+    obtain ⟨k', v'⟩ := y
+    simp only [erase]
+    by_cases h : k' = k
+    · simp [h]
+    · simp only [h, if_false]; exact List.Sublist.cons_cons _ ih
+
+theorem mem_keys_of_mem (l : AList κ α) (k : κ) (v : α) (h : (k, v) ∈ l) : k ∈ keys l :=
+  List.mem_map_of_mem (f := (·.1)) h
+
+end Gin.AList
+
+namespace Gin.AList
+variable {κ α : Type} [DecidableEq κ]
+
+theorem mem_of_lookup (l : AList κ α) (k : κ) (v : α) (h : lookup k l = some v) : (k, v) ∈ l := by
+  induction l with
+  | nil => simp [lookup] at h
+  | cons y rest ih =>
+    obtain ⟨k', v'⟩ := y
+    simp only [lookup] at h
+    by_cases hk : k' = k
+    · simp only [hk, if_true, Option.some.injEq] at h; subst h; simp [hk]
+    · simp only [hk, if_false] at h; exact List.mem_cons_of_mem _ (ih h)
+
+end Gin.AList
